@@ -1,7 +1,7 @@
 (* C07 — Variant conversions deliver the requested type and round-trip losslessly. *)
 From Coq Require Import List ZArith Bool Lia.
 Import ListNotations.
-Require Import Variant VariantProofs.
+Require Import Sx Variant VariantProofs RunVar HostLaws.
 Open Scope Z_scope.
 
 Section C07.
@@ -48,24 +48,39 @@ Section C07.
   Proof. exact (int_datetime_roundtrip H int_to_string string_to_int string_to_int_fallback f32_to_string f64_to_string string_to_f32 string_to_f64 string_to_bool string_to_time string_to_span time_to_string obj_to_string arr_to_string). Qed.
 
   (* round trips under explicit laws of the host (premises; see the trusted base) *)
-  Hypothesis parse_format : forall z, string_to_int (int_to_string z) = Some z.
+  Hypothesis parse_format : forall z, in64 z = true -> string_to_int (int_to_string z) = Some z.
   Hypothesis bool_strings : (string_to_bool [116; 114; 117; 101] = true) /\ (string_to_bool [102; 97; 108; 115; 101] = false).
   Hypothesis trunc_of_int64 : forall z, - 2 ^ 53 <= z <= 2 ^ 53 -> trunc64 H (of_int64 H z) = z.
-  Hypothesis narrow_widen : forall f, narrow H (widen H f) = f.
+  Variable ok32 : F32 H -> Prop.   (* the float32 values the host can produce *)
+  Hypothesis narrow_widen : forall f, ok32 f -> narrow H (widen H f) = f.
   Hypothesis bool_floats : (eq32 H (one32 H) (zero32 H) = false) /\ (eq32 H (zero32 H) (zero32 H) = true) /\ (eq64 H (one64 H) (zero64 H) = false) /\ (eq64 H (zero64 H) (zero64 H) = true).
 
-  Theorem C07_integer_string_roundtrip : forall z, step2 (VInt H z) TString TInteger = Ok (VInt H z) /\ step2 (VLong H z) TString TLong = Ok (VLong H z).
+  Theorem C07_integer_string_roundtrip : forall z, in64 z = true -> step2 (VInt H z) TString TInteger = Ok (VInt H z) /\ step2 (VLong H z) TString TLong = Ok (VLong H z).
   Proof. exact (int_string_roundtrip H int_to_string string_to_int string_to_int_fallback f32_to_string f64_to_string string_to_f32 string_to_f64 string_to_bool string_to_time string_to_span time_to_string obj_to_string arr_to_string parse_format). Qed.
   Theorem C07_boolean_string_roundtrip : forall b, step2 (VBool H b) TString TBoolean = Ok (VBool H b).
   Proof. exact (bool_string_roundtrip H int_to_string string_to_int string_to_int_fallback f32_to_string f64_to_string string_to_f32 string_to_f64 string_to_bool string_to_time string_to_span time_to_string obj_to_string arr_to_string bool_strings). Qed.
   Theorem C07_integer_double_roundtrip : forall z, - 2 ^ 53 <= z <= 2 ^ 53 ->
     step2 (VInt H z) TDouble TInteger = Ok (VInt H z) /\ step2 (VLong H z) TDouble TLong = Ok (VLong H z).
   Proof. exact (int_double_roundtrip H int_to_string string_to_int string_to_int_fallback f32_to_string f64_to_string string_to_f32 string_to_f64 string_to_bool string_to_time string_to_span time_to_string obj_to_string arr_to_string trunc_of_int64). Qed.
-  Theorem C07_float_double_roundtrip : forall f, step2 (VFloat H f) TDouble TFloat = Ok (VFloat H f).
-  Proof. exact (float_double_roundtrip H int_to_string string_to_int string_to_int_fallback f32_to_string f64_to_string string_to_f32 string_to_f64 string_to_bool string_to_time string_to_span time_to_string obj_to_string arr_to_string narrow_widen). Qed.
+  Theorem C07_float_double_roundtrip : forall f, ok32 f -> step2 (VFloat H f) TDouble TFloat = Ok (VFloat H f).
+  Proof. exact (float_double_roundtrip H int_to_string string_to_int string_to_int_fallback f32_to_string f64_to_string string_to_f32 string_to_f64 string_to_bool string_to_time string_to_span time_to_string obj_to_string arr_to_string ok32 narrow_widen). Qed.
   Theorem C07_boolean_float_roundtrip : forall b, step2 (VBool H b) TFloat TBoolean = Ok (VBool H b) /\ step2 (VBool H b) TDouble TBoolean = Ok (VBool H b).
   Proof. exact (bool_float_roundtrip H int_to_string string_to_int string_to_int_fallback f32_to_string f64_to_string string_to_f32 string_to_f64 string_to_bool string_to_time string_to_span time_to_string obj_to_string arr_to_string bool_floats). Qed.
 End C07.
+
+(* the host laws that are not assumptions: for the executable instance the correspondence runs, decimal formatting
+   and parsing of integers round-trip for every int64 (proved, HostLaws.v) and the floating-point constants behave
+   as stated (computed); so these round trips hold outright, whatever the host oracle table says *)
+Theorem C07_decimal_format_then_parse_is_identity : forall z, in64 z = true -> string_to_int (int_to_string z) = Some z.
+Proof. exact parse_format_instance. Qed.
+Theorem C07_integer_string_roundtrip_closed : forall orc z, in64 z = true ->
+  bind (cu orc (VInt (HF orc) z) TString) (fun w => cu orc w TInteger) = Ok (VInt (HF orc) z) /\
+  bind (cu orc (VLong (HF orc) z) TString) (fun w => cu orc w TLong) = Ok (VLong (HF orc) z).
+Proof. exact int_string_roundtrip_instance. Qed.
+Theorem C07_boolean_float_roundtrip_closed : forall orc b,
+  bind (cu orc (VBool (HF orc) b) TFloat) (fun w => cu orc w TBoolean) = Ok (VBool (HF orc) b) /\
+  bind (cu orc (VBool (HF orc) b) TDouble) (fun w => cu orc w TBoolean) = Ok (VBool (HF orc) b).
+Proof. exact bool_float_roundtrip_instance. Qed.
 
 Print Assumptions C07_requested_type_unsafe.
 Print Assumptions C07_requested_type_safe.
@@ -80,3 +95,6 @@ Print Assumptions C07_boolean_string_roundtrip.
 Print Assumptions C07_integer_double_roundtrip.
 Print Assumptions C07_float_double_roundtrip.
 Print Assumptions C07_boolean_float_roundtrip.
+Print Assumptions C07_decimal_format_then_parse_is_identity.
+Print Assumptions C07_integer_string_roundtrip_closed.
+Print Assumptions C07_boolean_float_roundtrip_closed.
